@@ -103,6 +103,15 @@ def run(idx: Index, rep: Report, tier: str):
     check_vector_to_circuit(idx, rep)
     check_vector_ordering(idx, rep)
     check_default_spin_agreement(idx, rep)
+    _C03.check_register_size_reaches_encoder(idx, rep)       # occupation-number operators of low orbitals must be encoded on the full register
+    # the state encoders only read the occupation vector they are given (a caller encodes the same vector under several encodings)
+    from ..alias import Analyzer
+    from ..rules.purity import check_purity
+    an = Analyzer(idx, max_depth=4)
+    for fname, params in (("do_bk_transform", ["vector"]), ("do_scbk_transform", ["vector"]), ("do_jkmn_transform", ["vector"]), ("get_mapped_vector", ["vector"]),
+                          ("vector_to_circuit", ["vector"])):
+        check_purity(idx, rep, an, idx.function(f"{SV}::{fname}"), params, rule="K1.vector-inputs",
+                     what="encoding an occupation vector leaves the caller's vector unchanged")
 
 
 def check_vector_ordering(idx: Index, rep: Report):
